@@ -301,7 +301,17 @@ def strip_doc(body):
         return body[1:]
     return body
 
+def check_zero_defaults(fn):
+    """every default written in a translated signature is one the model may ignore: an all-zero tuple (origin / origins / centre),
+    False (invert) or None (over_sampling, shape_native) -- the correspondence harness calls the entry points WITHOUT these arguments
+    whenever the value is the default, so the model (which always receives the value) stays tied to the code"""
+    for d in list(fn.args.defaults) + [d for d in fn.args.kw_defaults if d is not None]:
+        ok = (isinstance(d, ast.Constant) and (d.value is None or d.value is False)) or \
+             (isinstance(d, ast.Tuple) and d.elts and all(isinstance(e, ast.Constant) and type(e.value) is float and e.value == 0.0 for e in d.elts))
+        if not ok: fail(fn, "a default argument is not an all-zero tuple / False / None")
+
 def check_args(fn, params, allow_self=False):
+    check_zero_defaults(fn)
     a = fn.args
     names = [x.arg for x in a.args]
     if allow_self:
@@ -379,6 +389,7 @@ def check_defaults(fn, defaults):
 def tr_method(fn, cname, self_params, params, ret, funcs, first, clsname=None, selfinfo=None, methods=None, self_ty=None, real=False):
     """a method / classmethod / property with a straight-line body.  first = "self" | "cls"; self_params: the Coq parameters that
     stand for `self` (the stored constructor arguments, or one object-typed `self`)"""
+    check_zero_defaults(fn)
     a = fn.args
     names = [x.arg for x in a.args]
     if names[:1] != [first]: fail(fn, f"first parameter is not {first}")
